@@ -1,4 +1,5 @@
 import Proofs.TrieOfTableG
+import Proofs.TrieShapeG
 import Proofs.BinaryQuant
 import Properties.C03TrieBuild
 /-!
@@ -57,6 +58,12 @@ theorem quant_trie_refines (fval : Nat → Rat) (bt : BT) (bound order start : N
   exact KV.C03Trie.trie_refines fval _ _ _ (ofTableG_represents fval bt bound order start q array bh ok hv sh qk) ok.order2 s w
     (by rw [hb]; exact hw) (by rw [hb]; exact hs)
 
+/-- **shape_g** — the layout facts (`ShapeG`: bit widths, no `uint8` wrap, `ArrayCount` entries of the offset table inside its block,
+float tables after the quant header, all regions in file order) follow from `Binary.trieSetup` for all four trie classes -/
+theorem shape_g (bt : BT) (bound order start : Nat) (q : Option QSpec) (array : Bool) (bh : Nat)
+    (sm : SmallG bt bound order q) (qk : QOK' order q) : ShapeG bt bound order start q array bh :=
+  shapeG_of_small bt bound order start q array bh sm qk
+
 theorem TableAgree.of_map {T1 T2 : Table} (ho : T1.order = T2.order)
     (h : ∀ g, (T1.lookup g).map Score.toFound = (T2.lookup g).map Score.toFound) : TableAgree T1 T2 := by
   refine ⟨ho, fun g => ?_⟩
@@ -89,7 +96,7 @@ theorem trie_build_represents_array (fval : Nat → Rat) (fadd : Nat → Nat →
     (P B : List Word → Nat) (U : Nat) (enc : ArpaEncW fval a bound P B) (uk : UnkOK fval a U) (ar : BlankArith fval fadd a P B)
     (array : Bool) (bh : Nat)
     (sm : ∀ st, visitAll (visitOrder (gramsOf a P B)) = .ok st →
-      ShapeG (fixUnk (unkOf a U) (genTable fadd a.order (visitOrder (gramsOf a P B)) st.blanks)) bound a.order start none array bh) :
+      SmallOK (fixUnk (unkOf a U) (genTable fadd a.order (visitOrder (gramsOf a P B)) st.blanks)) bound a.order) :
     ∃ b, buildTableU fadd a.order (gramsOf a P B) (unkOf a U) = .ok b ∧
       Represents fval (ofTableG b.table bound a.order start none array bh) (Table.build a) (rngOf b.table bound) := by
   obtain ⟨st, b, hst, hf, hb, htab, _⟩ := buildTable_general fadd enc
@@ -105,7 +112,9 @@ theorem trie_build_represents_array (fval : Nat → Rat) (fadd : Nat → Nat →
     · cases hx; exact uk.bits
     · cases hx
   have rep := ofTableG_represents fval _ bound a.order start none array bh (fixUnk_btok _ _ _ _ (genTable_btok fadd enc st hf))
-    (fixUnk_vals _ _ hub (genTable_vals fadd enc st (fun b hb => (hs b hb).1))) (sm st hst) (fun qs h => by cases h)
+    (fixUnk_vals _ _ hub (genTable_vals fadd enc st (fun b hb => (hs b hb).1)))
+    (shapeG_of_small _ bound a.order start none array bh ⟨sm st hst, fun qs h => by cases h⟩ (fun qs h => by cases h))
+    (fun qs h => by cases h)
   exact (rep.transfer (plain_values_agree fval _ _)).transfer
     (gen_table_agree fadd enc st hf (fun b hb => (hs b hb).2.2) (fun b hb => (hs b hb).2.1) U uk)
 
@@ -116,7 +125,7 @@ theorem trie_end_to_end_array (fval : Nat → Rat) (fadd : Nat → Nat → Nat) 
     (P B : List Word → Nat) (U : Nat) (enc : ArpaEncW fval a bound P B) (uk : UnkOK fval a U) (ar : BlankArith fval fadd a P B)
     (array : Bool) (bh : Nat)
     (sm : ∀ st, visitAll (visitOrder (gramsOf a P B)) = .ok st →
-      ShapeG (fixUnk (unkOf a U) (genTable fadd a.order (visitOrder (gramsOf a P B)) st.blanks)) bound a.order start none array bh)
+      SmallOK (fixUnk (unkOf a U) (genTable fadd a.order (visitOrder (gramsOf a P B)) st.blanks)) bound a.order)
     (h : List Word) (st : State) (sf : StateFor a h st) (w : Word) (hw : a.gram [w] ≠ none)
     (hwb : w < bound) (hs : ∀ x ∈ st.words.take st.length, x < bound) :
     ∃ b, buildTableU fadd a.order (gramsOf a P B) (unkOf a U) = .ok b ∧
@@ -306,9 +315,7 @@ theorem trie_end_to_end_quant_exact (fval : Nat → Rat) (fadd : Nat → Nat →
       (((keysOfLen (fixUnk (unkOf a U) (genTable fadd a.order (visitOrder (gramsOf a P B)) st.blanks)) k).map (·.2.2)).filter
         fun b => b ≠ noExtensionBits ∧ b ≠ 0).length ≤ 2^bb - 2)
     (sm : ∀ st, visitAll (visitOrder (gramsOf a P B)) = .ok st →
-      ShapeG (fixUnk (unkOf a U) (genTable fadd a.order (visitOrder (gramsOf a P B)) st.blanks)) bound a.order start
-        (some (QSpec.train ops pb bb (fixUnk (unkOf a U) (genTable fadd a.order (visitOrder (gramsOf a P B)) st.blanks)) a.order))
-        array bh)
+      SmallOK (fixUnk (unkOf a U) (genTable fadd a.order (visitOrder (gramsOf a P B)) st.blanks)) bound a.order)
     (h : List Word) (st : State) (sf : StateFor a h st) (w : Word) (hw : a.gram [w] ≠ none)
     (hwb : w < bound) (hs : ∀ x ∈ st.words.take st.length, x < bound) :
     ∃ b, buildTableU fadd a.order (gramsOf a P B) (unkOf a U) = .ok b ∧
@@ -332,7 +339,10 @@ theorem trie_end_to_end_quant_exact (fval : Nat → Rat) (fadd : Nat → Nat →
     rw [← hT]; exact fixUnk_vals _ _ hub (genTable_vals fadd enc vs (fun b hb => (hsums b hb).1))
   have hqk : QOK' a.order (some (QSpec.train ops pb bb T a.order)) := by
     intro qs hq; cases hq; exact train_qok ops pb bb T a.order hpb hbb hbb1 hm hn
-  have rep := ofTableG_represents fval T bound a.order start _ array bh hok hvals (by rw [← hT]; exact sm vs hst) hqk
+  have hsh : ShapeG T bound a.order start (some (QSpec.train ops pb bb T a.order)) array bh :=
+    shapeG_of_small T bound a.order start _ array bh
+      ⟨by rw [← hT]; exact sm vs hst, fun qs h => by cases h; exact ⟨hpb, hbb⟩⟩ hqk
+  have rep := ofTableG_represents fval T bound a.order start _ array bh hok hvals hsh hqk
   have qe : QExact T a.order (QSpec.train ops pb bb T a.order) :=
     train_exact ops laws pb bb T a.order hok.nodup (fun k hk => by rw [← hT]; exact (fit vs hst k hk).1)
       (fun k hk => by rw [← hT]; exact (fit vs hst k hk).2)
@@ -407,6 +417,12 @@ theorem k_shape_quant : ShapeG kTable 5 3 144 (some q23) false 0 :=
 theorem k_shape_quant_array : ShapeG kTable 5 3 144 (some q23) true 2 :=
   k_shape (some q23) true 2 (by decide +kernel) (by decide +kernel) (by decide +kernel) (by decide +kernel)
 
+theorem k_small : SmallOK kTable 5 3 := by
+  refine ⟨by decide, by decide, ?_⟩
+  intro k hk
+  have : k = 0 ∨ k = 1 ∨ k = 2 ∨ k = 3 := by omega
+  rcases this with rfl | rfl | rfl | rfl <;> decide +kernel
+
 /-- **non-vacuity of `trie_end_to_end_array`**: all hypotheses hold for the example model with a hallucinated `<unk>` and a blank;
 every `FullScore` over the `ArrayTrieModel` memory (search region at byte 144, `-a 3`) is the ARPA recursion -/
 theorem example_end_to_end_array (h : List Word) (st : KV.State.State)
@@ -415,7 +431,7 @@ theorem example_end_to_end_array (h : List Word) (st : KV.State.State)
     ∃ b, buildTableU kAdd kArpa.order (gramsOf kArpa kP kB) (unkOf kArpa unkBits) = .ok b ∧
       (fullScore (search f32ToRat (ofTableG b.table 5 kArpa.order 144 none true 3)) st w).1.prob = score kArpa h w :=
   trie_end_to_end_array f32ToRat kAdd kArpa 5 144 kP kB unkBits k_enc k_unk k_arith true 3
-    (fun vs hvs => by rw [k_blanks vs hvs]; exact k_shape_array) h st sf w hw hwb hs
+    (fun vs hvs => by rw [k_blanks vs hvs]; exact k_small) h st sf w hw hwb hs
 
 end Examples
 
